@@ -70,6 +70,55 @@ CHECKS["C27"] = dict(
               "generator, z3/cvc5) + bounded run-time contract through the engine",
     design_ref="5/C27")
 
+def _bounded(text, note, ref, level="exploration"):
+  return dict(level=level, text=text, note=note, design_ref=ref, engine="rtc",
+              technique="bounded run-time contracts on the real functions (exhaustive small "
+                        "scope + seeded sampling); labelled bounded, not a proof")
+
+CHECKS["C17"] = _bounded(
+  "Run-time contract on predicate_formula.process_renames (three real collectors) and on column "
+  "renames through the real engine: parse(new text) == old tree with exactly the documented "
+  "references renamed, other text unchanged, stored parsed form consistent, unparsable formulas "
+  "untouched. Exhaustive to depth 2 over 12 atoms, sampled above; 260 engine documents.",
+  "bounded; friendly_traceback shim; depth-3 formulas sampled", "5/C17")
+CHECKS["C22"] = _bounded(
+  "Run-time contract on every column type's convert(): never raises, result is of the type / a "
+  "str / the unchanged error object, and convert(convert(v)) == convert(v); 18 type instances x "
+  "446-value adversarial pool (complete) + seeded random values.",
+  "bounded; the deductive totality/result-type obligations planned in DESIGN.md are not built "
+  "yet; known findings listed in known_findings.d/C22.json", "5/C22")
+CHECKS["C24"] = _bounded(
+  "Run-time contract on objtypes.encode_object/decode_object over the value pool (marshal.dumps "
+  "accepts, decode/encode fixpoint) and on replies sent through a real sandbox.Sandbox pipe by "
+  "the functions main.run registers (a normal return must be delivered).",
+  "bounded; Node's JS unmarshaller is not exercised", "5/C24")
+CHECKS["C25"] = _bounded(
+  "Run-time contract on migrations.create_migrations: documents at every version 0..current "
+  "built by the real migrations, with adversarial Text cells; total, schema == current schema, "
+  "schemaVersion set, no-op when current, user tables untouched.",
+  "bounded; 78 adversarial texts, one-hot over (column, text) pairs", "5/C25")
+CHECKS["C32"] = _bounded(
+  "Run-time contract on import_csv._parse_open_file with explicit delimiter/quotechar/headers: "
+  "equal-length columns, one entry per data row, every non-empty cell in place, kept columns; "
+  "exhaustive small ragged grids + long grids around the 100-row sample + random grids.",
+  "bounded; known findings in known_findings.d/C32.json", "5/C32")
+CHECKS["C33"] = _bounded(
+  "Run-time contract on import_json.dumps: a decoder written from the statement rebuilds the JSON "
+  "from the produced tables (rows, sub-tables, back references, every scalar once, "
+  "includes/excludes); exhaustive to depth 2, random above.",
+  "bounded; known findings in known_findings.d/C33.json", "5/C33")
+CHECKS["C35"] = _bounded(
+  "Run-time contract on SCHEDULE against a brute-force enumeration of the statement's set; "
+  "invalid strings raise ValueError only; all units x multiples x 23 starts (DST, month/year "
+  "boundaries, 4 zones) + random valid and fuzzed strings.",
+  "bounded; known finding: starts before 1900", "5/C35")
+CHECKS["C40"] = _bounded(
+  "Run-time contract on parse_predicate_formula: JSON-serialisable tree; a tree interpreter "
+  "written from the documented node table agrees with Python eval (with $x as rec.x) on all "
+  "parenthesised expressions to depth 3 over the supported operators; unsupported syntax raises "
+  "SyntaxError.",
+  "bounded; the structural-induction proof planned in DESIGN.md is not built yet", "5/C40")
+
 NOT_APPLICABLE = {
   "C30": "quantifies over interpreter configurations (PYTHONHASHSEED) and relates two separate "
          "processes; no pre/postcondition on a call inside one process can mention the hash seed "
